@@ -44,6 +44,20 @@ func main() {
 		for _, l := range props.FieldReadsDebug(p) {
 			fmt.Println(l)
 		}
+	case "funcs":
+		repo := "/repo"
+		if len(os.Args) > 2 {
+			repo = os.Args[2]
+		}
+		p, err := load.LoadOverlay(repo, load.Config{}, nil, false)
+		if err != nil {
+			fmt.Fprintln(os.Stderr, err)
+			os.Exit(2)
+		}
+		fmt.Println("# functions and methods declared in the tree the rule instances were confirmed on (verif funcs); see checker/internal/load/normalise.go")
+		for _, l := range load.DeclaredFuncs(p.Initial) {
+			fmt.Println(l)
+		}
 	case "list":
 		for _, id := range props.IDs() {
 			fmt.Println(id)
@@ -96,7 +110,21 @@ func check(args []string) int {
 	results := map[string]*perProp{}
 	for ci, cfg := range configs {
 		t0 := time.Now()
-		prog, lerr := load.Load(*repo, cfg)
+		prog, lerr := load.LoadOverlay(*repo, cfg, nil, false)
+		if lerr == nil {
+			// helpers the reference tree does not have are inlined into their callers before the rules run
+			// (load/normalise.go); on the reference tree itself nothing is rewritten
+			ref, rerr := load.ReadReference(filepath.Join(*verif, "reference_funcs.txt"))
+			if rerr != nil {
+				lerr = fmt.Errorf("reference function list: %w", rerr)
+			} else {
+				var nlog []string
+				prog, nlog, lerr = load.Normalise(*repo, cfg, ref, prog)
+				for _, l := range nlog {
+					fmt.Println("NORMALISED " + cfg.String() + ": " + l)
+				}
+			}
+		}
 		loadS := time.Since(t0).Seconds()
 		for _, id := range ids {
 			tp := time.Now()
@@ -128,6 +156,7 @@ func check(args []string) int {
 				pp.stats["callgraph_nodes"] = prog.Stats.CGNodes
 				pp.stats["callgraph_edges"] = prog.Stats.CGEdges
 				pp.stats["timing"] = prog.Timing
+				pp.stats["normalised"] = prog.NormaliseLog
 			}
 		}
 		prog = nil
